@@ -273,6 +273,36 @@ def shrink (g : Graph) (sub : List Nat) (sel : Sel) (pick : Pick) : Except Err (
     | .uniform => .ok (sortAsc (shrinkLoop g none pick (S.length + 1) 0 S))
     | .weight ws => .ok (sortAsc (shrinkLoop g (some ws) pick (S.length + 1) 0 S))
 
+/-! ### `clique.search`: repeated grow + swap -/
+
+/-- the random choices seen by a callee that starts after `k` choices were already consumed -/
+def shiftPick (pick : Pick) (k : Nat) : Pick := fun s n => pick (s + k) n
+
+/-- `set(a) == set(b)` -/
+def setEq (a b : List Nat) : Bool := (a.all fun x => b.contains x) && (b.all fun x => a.contains x)
+
+/-- the recursion of `clique.search` with `it + 1` iterations left, `step` random choices consumed so far.
+Each round calls `grow` and then `swap` WITH THE SAME `sel`; `grow` consumes one choice per node added,
+`swap` one choice iff `C1` is non-empty. -/
+def cliqueSearchLoop (g : Graph) (sel : Sel) (pick : Pick) : Nat → Nat → List Nat → Except Err (List Nat)
+  | 0, _, C => .ok C
+  | it + 1, step, C =>
+    match grow g C sel (shiftPick pick step) with
+    | .error e => .error e
+    | .ok grown =>
+      let step1 := step + (grown.length - (distinct C).length)
+      match swap g grown sel (shiftPick pick step1) with
+      | .error e => .error e
+      | .ok swapped =>
+        let step2 := step1 + (if (c1 g (distinct grown)).isEmpty then 0 else 1)
+        if setEq grown swapped || it == 0 then .ok swapped
+        else cliqueSearchLoop g sel pick it step2 swapped
+
+/-- `clique.search(clique, graph, iterations, node_select)` -/
+def cliqueSearch (g : Graph) (clique : List Nat) (iterations : Nat) (sel : Sel) (pick : Pick) :
+    Except Err (List Nat) :=
+  if iterations < 1 then .error .iterations else cliqueSearchLoop g sel pick iterations 0 clique
+
 /-! ## subgraph.py -/
 
 /-- candidates for addition in `resize`: outside nodes of maximum degree relative to `S`,
